@@ -88,7 +88,12 @@ pub fn substance_from_formula(
                 match subst.get("molar_mass") {
                     Ok(subst_molar_mass) => {
                         let subst_molar_mass = (&subst_molar_mass * &count).unwrap();
-                        total_molar_mass = (&total_molar_mass + &subst_molar_mass).unwrap();
+                        // Molar masses that are not mass per amount of
+                        // substance (in kg / mol) cannot be summed up.
+                        total_molar_mass = match &total_molar_mass + &subst_molar_mass {
+                            Some(sum) => sum,
+                            None => return None,
+                        };
                     }
                     Err(_) => return None,
                 }
